@@ -102,6 +102,14 @@ class TorchCalls(TorchOps):
                 import itertools as _it
                 return ListV(items=tuple(ListV(items=c, kind="tuple") for c in _it.combinations(lst.items, 2)))
             return self.unk("combinations", node)
+        if name == "math.prod" and len(args) == 1 and not kwargs:
+            lst = self.to_list(args[0], "list", node)
+            if isinstance(lst, ListV) and lst.items is not None:
+                out = Const(1)
+                for x in lst.items:
+                    out = self.binary(out, ast.Mult(), x, node, env)
+                return out
+            return self.unk("math.prod of an abstract sequence", node)
         if name in ("math.ceil", "math.floor"):
             t = tv_of(args[0])
             if t is None:
